@@ -2,7 +2,7 @@
 from mc import alphabets as al
 from mc import roundtrip as rt
 
-EXPRESSIBLE = {"Literal[0, 1]", "Literal['', 'x']", "Literal['1', '2']", al.ABSENT, "str", "int", "float", "bool", "Optional[str]", "Optional[int]", "List[str]", "List[int]",
+EXPRESSIBLE = {"Literal[-1, 0, 1]", "Literal['None', 'x']", "Literal['x[', 'y[']", "Literal[0, 1]", "Literal['', 'x']", "Literal['1', '2']", al.ABSENT, "str", "int", "float", "bool", "Optional[str]", "Optional[int]", "List[str]", "List[int]",
                "Literal['x', 'y']", "Literal[1, 2]", "Optional[Literal['x', 'y']]", "Optional[float]"}
 
 
